@@ -592,8 +592,17 @@ func Go(fn func()) {
 	s.newThread("go", fn)
 }
 
+// OnRun registers a hook that runs at the start of every execution (shim objects with process-wide lifetime,
+// such as sync.Pool stand-ins, forget their contents there: executions must not influence each other).
+func OnRun(f func()) { runHooks = append(runHooks, f) }
+
+var runHooks []func()
+
 // Run executes body once under the scheduler, following prefix and then the base policy.
 func Run(prefix []int, policy int, maxSteps int, body func()) Outcome {
+	for _, h := range runHooks {
+		h()
+	}
 	s := &Sched{prefix: prefix, resultc: make(chan struct{}), maxSteps: maxSteps, shadow: map[unsafe.Pointer]*shadow{}, policy: policy}
 	S = s
 	t0 := s.newThread("main", body)
